@@ -225,14 +225,16 @@ def find_local_objects(unit, fd, records):
     return cands
 
 
-def _scalarise_fields(fd, obj, info):
+def _scalarise_fields(fd, obj, info, aliases=()):
     """Direct field accesses of a scalar-replaced object become reads/writes of its pseudo locals; an aggregate
-    initialiser becomes their declarations (a reference field is an alias of its initialiser)."""
+    initialiser becomes their declarations (a reference field is an alias of its initialiser).  `aliases`: reference
+    parameters of folded helpers that are bound to the object."""
     nodes = fd["nodes"]
+    names = {obj} | set(aliases)
     for n in nodes:
         if n.get("k") == "MemberExpr" and n.get("mk") == "Field" and n.get("c") and not n.get("arrow"):
             o = nodes[_strip_idx(nodes, n["c"][0])]
-            if o.get("k") == "DeclRefExpr" and o.get("d") == obj and not o.get("this_of"):
+            if o.get("k") == "DeclRefExpr" and o.get("d") in names and not o.get("this_of"):
                 fld = n.get("m")
                 for k_ in ("m", "md", "mk", "arrow", "mc"):
                     n.pop(k_, None)
@@ -260,6 +262,79 @@ def _scalarise_fields(fd, obj, info):
             k = b["elems"].index(ds["i"])
             b["elems"][k + 1:k + 1] = binds
             break
+
+
+def _scalarise_context_objects(fd, records):
+    """A function split into phases that share a small context struct (`struct unlink_state { T *&current; owner next; T
+    *previous; }; unlink_state st{a, b, c}; _phase1(st); _phase2(st, out);`): once the phases are folded in, the struct is a
+    bundle of locals.  A local of a NEW aggregate type, aggregate-initialised with one initialiser per field, that is only
+    ever accessed field by field -- directly or through reference parameters of folded helpers bound to it -- is replaced
+    by one pseudo local per field (a reference field is an alias of its initialiser)."""
+    kr = known_records()
+    if kr is None:
+        return
+    nodes = fd["nodes"]
+    new_recs = {r["uq"]: r for r in records if r["uq"] not in kr and not r.get("lambda")}
+    if not new_recs:
+        return
+    done = set(fd.get("_objs") or ())
+    cands = {}
+    for n in nodes:
+        if n.get("k") == "DeclStmt":
+            for d in n.get("decls", []):
+                if d.get("rt") in new_recs and "init" in d and d["d"] not in done:
+                    ini = nodes[_strip_idx(nodes, d["init"])]
+                    if ini.get("k") == "InitListExpr" and len(ini.get("c", [])) == len(new_recs[d["rt"]].get("fields", [])) \
+                            and new_recs[d["rt"]].get("fields") and not new_recs[d["rt"]].get("bases"):
+                        cands[d["d"]] = {"cls": d["rt"], "name": d.get("n", "obj"), "agg_init": ini["i"], "decl_stmt": n["i"],
+                                         "rec": new_recs[d["rt"]]}
+    if not cands:
+        return
+    alias_of = {}
+    bind_inits = set()
+    changed = True
+    while changed:
+        changed = False
+        for n in nodes:
+            if n.get("k") == "ParamBind" and n.get("init") is not None and n.get("d") not in alias_of:
+                o = nodes[_strip_idx(nodes, n["init"])]
+                if o.get("k") == "DeclRefExpr" and (o.get("d") in cands or o.get("d") in alias_of) and (n.get("t") or "").rstrip().endswith("&"):
+                    alias_of[n["d"]] = o["d"] if o["d"] in cands else alias_of[o["d"]]
+                    changed = True
+    for n in nodes:
+        if n.get("k") == "ParamBind" and n.get("init") is not None:
+            bind_inits.add(_strip_idx(nodes, n["init"]))
+    parent = {}
+    for n in nodes:
+        for c in n.get("c") or ():
+            parent.setdefault(c, n["i"])
+    def root(d):
+        return d if d in cands else alias_of.get(d)
+    for n in nodes:
+        if n.get("k") != "DeclRefExpr" or root(n.get("d")) is None:
+            continue
+        r = root(n["d"])
+        if r not in cands:
+            continue
+        i = n["i"]
+        if i in bind_inits:
+            continue
+        p = parent.get(i)
+        hops = 0
+        while p is not None and nodes[p].get("k") in ("ImplicitCastExpr", "ParenExpr") and hops < 6:
+            if p in bind_inits:
+                break
+            i, p, hops = p, parent.get(p), hops + 1
+        if p is not None and p in bind_inits:
+            continue
+        pn = nodes[p] if p is not None else None
+        if pn is not None and pn.get("k") == "MemberExpr" and pn.get("mk") == "Field" and not pn.get("arrow") and pn.get("c") and pn["c"][0] == i:
+            continue
+        if pn is not None and pn.get("inlined"):
+            continue            # an argument of a call that was folded in: the binding above is what is left of it
+        cands.pop(r, None)
+    for obj, info in cands.items():
+        _scalarise_fields(fd, obj, info, aliases=[a for a, r in alias_of.items() if r == obj])
 
 
 def _scalarise_returned_aggregates(fd, records):
@@ -579,6 +654,7 @@ def inline_unit(unit_json):
             inline_once(u, fd, bid, idx, call_id, tgt, instance, skip, this_obj=_object_of(fd, fd["nodes"][call_id]))
             inlined_into.add(tgt["did"])
         _scalarise_returned_aggregates(fd, unit_json.get("records", []))
+        _scalarise_context_objects(fd, unit_json.get("records", []))
     kn = known_functions()
     drop = set()
     for did in inlined_into:
